@@ -134,6 +134,22 @@ structure Policy where
   cltvDelta : Nat   -- cltv_delta
 deriving DecidableEq, Repr
 
+/-- The HTLC trim thresholds of a commitment (`SimpleValidator::validate_commitment_tx`, non-zero-fee-HTLC channel):
+    `MIN_DUST_LIMIT_SATOSHIS + feerate_per_kw * htlc_timeout_tx_weight / 1000` for offered HTLCs and the same with
+    `htlc_success_tx_weight` for received ones.  `⟨0, 0⟩` = nothing is ever below the threshold. -/
+structure Dust where
+  off : Nat
+  rcv : Nat
+deriving DecidableEq, Repr
+
+def dustLimit (minDust feerate weight : Nat) : Nat := minDust + feerate * weight / 1000
+
+/-- `policy-commitment-outputs-trimmed`: a commitment that LISTS an HTLC below the trim threshold of its direction is
+    refused (such an HTLC has no output on the transaction; the signer insists that the node does not list it).
+    `offered` / `received` are relative to the broadcaster of the commitment. -/
+def untrimmed (d : Dust) (offered received : List Htlc) : Bool :=
+  offered.all (fun h => !(h.value < d.off)) && received.all (fun h => !(h.value < d.rcv))
+
 structure Invoice where
   amount : Nat      -- amount_msat
   deadline : Nat    -- duration_since_epoch + expiry_duration + prune_time (seconds)
@@ -175,12 +191,14 @@ structure Node where
   /-- `policy.global_velocity_control` and the node-wide control (memory / persisted copy) -/
   spec : Velocity.Spec
   vc : Velocity.NodeVC
+  /-- trim thresholds at the (fixed) commitment feerate of the channels -/
+  dust : Dust
 
-def Node.init (nch : Nat) (pol : Policy) (spec : Velocity.Spec := ⟨0, .unlimited⟩) : Node :=
+def Node.init (nch : Nat) (pol : Policy) (spec : Velocity.Spec := ⟨0, .unlimited⟩) (dust : Dust := ⟨0, 0⟩) : Node :=
   { nch := nch, pol := pol, invoices := fun _ => none, known := [], payments := fun _ => none,
     chans := fun _ => ChanSt.init, disk := ⟨fun _ => none, fun _ => false⟩,
     issued := fun _ => none, diskIssued := fun _ => none,
-    spec := spec, vc := Velocity.NodeVC.ofSpec spec }
+    spec := spec, vc := Velocity.NodeVC.ofSpec spec, dust := dust }
 
 inductive VRes | ok | err | panic
 deriving DecidableEq, Repr
@@ -432,9 +450,16 @@ def Op.mentioned : Op → List Hash
   | _ => []
 
 def Node.exec (n : Node) : Op → Option (Node × Bool)
-  | .cpSign c r i => match n.cpSign c r i with
+  -- `validate_counterparty_commitment_tx` / `validate_holder_commitment_tx` (→ `validate_commitment_tx`) run before
+  -- `validate_payments`: a listed HTLC below the trim threshold refuses the request, nothing changes.
+  -- counterparty commitment: offered (by the counterparty) = incoming, received = outgoing; holder: the reverse
+  | .cpSign c r i =>
+    if !(untrimmed n.dust i.inc i.out) then some (n, false) else
+    match n.cpSign c r i with
       | (n', .ok) => some (n', true) | (_, .err) => some (n, false) | (_, .panic) => none
-  | .hValidate c r i => match n.hValidate c r i with
+  | .hValidate c r i =>
+    if !(untrimmed n.dust i.out i.inc) then some (n, false) else
+    match n.hValidate c r i with
       | (n', .ok) => some (n', true) | (_, .err) => some (n, false) | (_, .panic) => none
   | .revoke c => match n.revoke c with
       | (n', .ok) => some (n', true) | (_, .err) => some (n, false) | (_, .panic) => none
